@@ -61,6 +61,7 @@ type c17slot struct {
 	decided    bool
 	admitted   bool
 	gone       bool // release invoked (or holder observed closed by the component)
+	releasing  bool // the release call has been invoked and has not returned yet
 	err        error
 }
 
@@ -254,10 +255,22 @@ func (g *c17gauge) component(n int, what string) {
 	if g.limit > 0 && n > g.limit && !g.dead {
 		g.dead = true
 		viol, cls = true, "racing-admissions"
+		inFlight := 0
+		for _, t := range g.slots {
+			if t.admitted && t.releasing {
+				inFlight++
+			}
+		}
 		if g.faulted != nil && g.faulted() {
 			cls = g.faultClass()
 		} else if g.classOf != nil && len(g.slots) > 0 {
 			cls = g.classOf(g.slots[len(g.slots)-1])
+		} else if !g.overlap && inFlight > 0 && n-inFlight <= g.limit {
+			// no two admissions overlapped; the surplus consists of holders whose release has been
+			// invoked but is not yet visible in the component's own state: a request was admitted on
+			// the strength of a release that had not been applied yet
+			cls = "admitted-on-unapplied-release"
+			what += fmt.Sprintf("; %d release(s) of earlier holders are invoked but not yet applied, the harness counts those holders as gone", inFlight)
 		} else if !g.overlap {
 			cls = "sequential"
 		}
@@ -528,7 +541,17 @@ func (r *c17run) doRelease(ops *c17ops, s *c17slot, how int) {
 	g := r.g
 	g.releasing(s, fmt.Sprintf("how=%d", how))
 	r.w.Probe(r.point + ".release")
-	if err := ops.release(s, how); err != nil {
+	g.mu.Lock()
+	s.releasing = true
+	g.mu.Unlock()
+	err := ops.release(s, how)
+	g.mu.Lock()
+	s.releasing = false
+	if err == nil {
+		g.logf("%s release returned", s.name)
+	}
+	g.mu.Unlock()
+	if err != nil {
 		g.unrelease(s, err)
 	}
 }
